@@ -1,3 +1,4 @@
+\* header computation: every Cors builder chain of <= 3 calls x 7 handler kinds, one route registered before / after with_cors / with_cors_config
 CONSTANTS
   Pats = {"/a"}
   HKinds = {"plain", "ownO", "ownM", "ownH", "ownAll", "cred", "dupO"}
